@@ -33,6 +33,7 @@ MCClaimReqs ==
     [] Level = 12 -> {SM(2, "key", AndA)}
     [] Level = 13 -> {SE(1), SM(1, "key", NoF)}
     [] Level = 14 -> {PE(1, NoF, 11, "")}
+    [] Level = 17 -> {SE(1)}                                \* the patcher fetched k1 before the claim shifted it out
     [] Level = 16 -> {SE(1)}                                \* a save of the oldest record is between delete and add
     [] Level = 15 -> {PE(1, NoF, 11, "c"), SE(1)}           \* the patch condition fails: ghost in the expiration index
     [] Level = 1 -> {SE(n) : n \in Ns} \cup {SM(n, "key", f) : n \in Ns, f \in {NoF, AndA, AndZ}}
@@ -44,7 +45,7 @@ MCClaimReqs ==
 MCIntOps ==
   CASE Level = 0 -> {Del(1), Patch(1, -1, "b", ""), Patch(1, 12, "", "")}
     [] Level \in {11, 13} -> {}
-    [] Level \in {12, 16} -> {Patch(1, -1, "b", "")}
+    [] Level \in {12, 16, 17} -> {Patch(1, -1, "b", "")}
     [] Level \in {14, 15} -> {Del(1)}
     [] Level = 1 -> {Del(k) : k \in Keys} \cup {Patch(k, -1, "b", "") : k \in Keys} \cup {Patch(k, 12, "", "") : k \in Keys}
                     \cup {Put(3, 3, "a", "p")}
@@ -84,7 +85,7 @@ Busy(q) ==
   \/ pc[q] = "walk" /\ ~WalkOver(q)
   \/ pc[q] = "fin" /\ req[q].kind \in {"se", "sm"}
   \/ pc[q] = "fin" /\ req[q].kind = "pe" /\ todo[q] # res[q] /\ ~(todo[q] = <<>> /\ lock["expA"] # "")
-  \/ pc[q] = "do"
+  \/ pc[q] = "do" /\ req[q].kind # "patch"        \* (a patch can be parked at gate patchfields.fetched)
   \/ pc[q] = "rx" /\ lock["expA"] = "" /\ lock["expD"] = ""     \* (pc "gap" = gate beacon.add.enter: interruptible)
 Moved(q) == pc'[q] # pc[q] \/ walk'[q] # walk[q] \/ todo'[q] # todo[q]
 Coarse == \A q \in Procs : Busy(q) => Moved(q)
